@@ -35,6 +35,96 @@ func cosFlags(opt rules.CosmeticOption) string {
 	return wbool(css) + wbool(js) + wbool(gen)
 }
 
+func cosoptNames(r *rng, mask int) (names []string) {
+	for i, m := range cosoptMods {
+		if mask&(1<<i) != 0 {
+			names = append(names, m)
+		}
+	}
+	shuffle(r, names)
+
+	return names
+}
+
+// cosoptWithdrawn: rules that come with their `$badfilter` twin.  None of them is a twin of `@@||e.org^$<subset of the nine>`.
+var cosoptWithdrawn = []string{"@@||e.org^$generichide,match-case", "@@||e.org^$elemhide,match-case", "@@||e.org^$match-case,jsinject,important",
+	"||e.org^$important,match-case", "@@||e.org^$document,match-case", "||e.org^$match-case", "@@||e.org^$match-case", "@@||e.org^$urlblock,genericblock,match-case",
+	"@@|http://e.org^$elemhide", "@@|http://e.org^$generichide,jsinject", "|http://e.org^$important"}
+
+// cosoptWeaker: rules that never beat an exception, and `$badfilter` rules without a partner in the list.
+var cosoptWeaker = []string{"||e.org^", "|http://e.org/", "||e.org^$~script", "@@||e.org^$elemhide,match-case,badfilter", "||e.org^$badfilter,match-case", "@@|http://e.org^$badfilter,document"}
+
+// cosoptList emits `cosopt <R> (<names>) () (<R>…)`: the exception `text` inside a list of matched rules.
+func cosoptList(r *rng, w *bufio.Writer, text string, names []string) {
+	var before, after []string
+	add := func(ts ...string) {
+		switch r.n(5) {
+		case 0:
+			after = append(after, ts...)
+		case 1:
+			// around the exception
+			before = append(before, ts[0])
+			after = append(after, ts[1:]...)
+		default:
+			before = append(before, ts...)
+		}
+	}
+	for k := 1 + r.n(2); k > 0; k-- {
+		x := pick(r, cosoptWithdrawn)
+		twin := x + ",badfilter"
+		if r.chance(1, 3) {
+			i := strings.IndexByte(x, '$')
+			twin = x[:i+1] + "badfilter," + x[i+1:]
+		}
+		if r.chance(1, 3) {
+			add(twin, x)
+		} else {
+			add(x, twin)
+		}
+	}
+	for k := r.n(3); k > 0; k-- {
+		add(pick(r, cosoptWeaker))
+	}
+	texts := append(append(append([]string{}, before...), text), after...)
+	var list []*rules.NetworkRule
+	var ws []string
+	var f *rules.NetworkRule
+	for _, t := range texts {
+		x, err := rules.NewNetworkRule(t, 1)
+		if err != nil {
+			fmt.Fprintf(w, "cosopt _ (%s) = err ## %s REJECTED: %v\n", strings.Join(names, " "), t, err)
+
+			return
+		}
+		if t == text {
+			f = x
+		}
+		list = append(list, x)
+		ws = append(ws, wnetrule(x))
+	}
+	opt := rules.NewMatchingResult(list, nil).GetCosmeticOption()
+	fmt.Fprintf(w, "cosopt %s (%s) () %s = %d:%s ## %s among the matched rules [%s]\n", wnetrule(f), strings.Join(names, " "), wlist(ws...),
+		uint32(opt), cosFlags(opt), text, strings.Join(texts, " ; "))
+	// the same rules as a filter list (shuffled, with element hiding rules) through a real Engine
+	lines := append([]string{"##.generic", "e.org##.specific"}, texts...)
+	shuffle(r, lines)
+	detail := ""
+	ans := guardStr(func() string {
+		s, err := filterlist.NewRuleStorage([]filterlist.RuleList{&filterlist.StringRuleList{ID: 1, RulesText: strings.Join(lines, "\n") + "\n"}})
+		if err != nil {
+			return "err"
+		}
+		e := urlfilter.NewEngine(s)
+		got := e.MatchRequest(rules.NewRequest("http://e.org/", "", rules.TypeDocument)).GetCosmeticOption()
+		res := e.GetCosmeticResult("e.org", got)
+		flags := wbool(len(res.ElementHiding.Specific) > 0) + wbool(got&rules.CosmeticOptionJS == rules.CosmeticOptionJS) + wbool(len(res.ElementHiding.Generic) > 0)
+		detail = fmt.Sprintf("engine %d:%s, NewMatchingResult on the list %d:%s", uint32(got), flags, uint32(opt), cosFlags(opt))
+
+		return wbool(got == opt && flags == cosFlags(opt))
+	})
+	fmt.Fprintf(w, "assert cosopt.engine %s = %s ## list [%s] document request http://e.org/ : %s\n", wstrs(lines), ans, strings.Join(lines, " ; "), detail)
+}
+
 func genCosopt(r *rng, n int, w *bufio.Writer) {
 	// emitSrc: the same rule is also among the rules matching the referrer (a same-site navigation)
 	emitSrc := func(f *rules.NetworkRule, names []string, src []*rules.NetworkRule) {
@@ -97,6 +187,34 @@ func genCosopt(r *rng, n int, w *bufio.Writer) {
 		default:
 			emitSrc(f, names, []*rules.NetworkRule{f, mustRule("@@||e.org^$genericblock,urlblock")})
 		}
+	}
+	// R2: the same 2^9 subsets written with STRAY COMMAS in the modifier list (leading, doubled, trailing: empty items, which
+	// the parser drops; no backslash anywhere in the line): the rule must be accepted and mean the same
+	for mask := 0; mask < 1<<len(cosoptMods); mask++ {
+		names := cosoptNames(r, mask)
+		text := "@@||e.org^$" + r2JoinStray(r, names)
+		f, err := rules.NewNetworkRule(text, 1)
+		if err != nil {
+			fmt.Fprintf(w, "cosopt _ (%s) = err ## %s REJECTED: %v\n", strings.Join(names, " "), text, err)
+
+			continue
+		}
+		emit(f, names)
+	}
+	// R2: the exception among OTHER matched rules, in match order: rules withdrawn by their `$badfilter` twin (every one of
+	// them differs from the exception in a modifier the exception never has), `$badfilter` rules that negate nothing,
+	// weaker (non-important blocking) rules -- in front of the exception, behind it, around it.  NewMatchingResult must
+	// select the exception whatever the order; the same list goes through a real Engine (assert cosopt.engine).
+	for mask := 0; mask < 1<<len(cosoptMods); mask++ {
+		names := cosoptNames(r, mask)
+		text := "@@||e.org^"
+		if len(names) > 0 {
+			text += "$" + strings.Join(names, ",")
+			if r.chance(1, 4) {
+				text = "@@||e.org^$" + r2JoinStray(r, names)
+			}
+		}
+		cosoptList(r, w, text, names)
 	}
 	// non-exception and absent basic rules
 	emit(nil, nil)
